@@ -8,7 +8,7 @@
    node is shared with the main grammar).  Each exclusion is shown necessary by a refuted theorem with
    a vm_compute witness that replays on the implementation (corpus/C19): rule modifier, eolterm, rule
    shared with the Comment rule, Comment rule that is not a single terminal. *)
-From TxV Require Import Core.Base Model.PegSyntax Model.Peg Proofs.PegProofs Proofs.PegMemo Proofs.PegFuel.
+From TxV Require Import Core.Base Model.PegSyntax Model.Peg Proofs.PegProofs Proofs.PegMemo Proofs.PegFuel Proofs.PegTerm.
 
 (* For every grammar in the class (sequences, ordered choice, optional, repetitions with separators,
    unordered groups, predicates, suppression, any terminals; optional single-terminal Comment rule),
@@ -108,3 +108,44 @@ Proof.
   split; [reflexivity | exact refuted_comment_model].
 Qed.
 Print Assumptions C19_comment_model_refuted.
+
+(* ---------------------------------------------------------------- termination of the interpreter
+   (PEG core; used by the properties that state interpreter-level theorems "if the run is not Aborted 0").
+   For grammar tables accepted by the decidable check [terminating rxn g] (Proofs/PegTerm.v: no left
+   recursion w.r.t. a nullability over-approximation, repetition elements that cannot be truthy without
+   consuming, a Comment rule that cannot succeed without consuming, no unordered group), every
+   configuration, both memoization settings, every oracle that stays inside the input and whose regex
+   matches are non-empty for the oracle ids with [rxn o = false], the interpreter does not run out of
+   fuel once the fuel reaches the computable [fuel_bound rxn g input]. *)
+Theorem PEG_run_terminates :
+  forall rxn g c orc m input f,
+    terminating rxn g = true -> orc_sane g input orc ->
+    (forall o, rxn o = false -> forall p l, orc o p = Some l -> 0 < l) ->
+    fuel_bound rxn g input <= f -> run g c orc m f input <> Aborted 0.
+Proof. exact run_terminates. Qed.
+Print Assumptions PEG_run_terminates.
+
+Example PEG_run_terminates_nonvacuous :
+  terminating none_nullable g_ex = true /\
+  orc_sane g_ex [120;44;120;46]%N (fun _ _ => None) /\ orc_pos (fun _ _ => None) /\
+  accepts (run g_ex c_default (fun _ _ => None) true (fuel_bound none_nullable g_ex [120;44;120;46]%N) [120;44;120;46]%N) = true.
+Proof. exact terminates_example. Qed.
+Print Assumptions PEG_run_terminates_nonvacuous.
+
+(* outside the class, left recursion `Model: A; A: A 'x' | 'y';`: the check rejects the table and the
+   model is out of fuel for EVERY fuel, input, oracle and configuration (the real parser dies with
+   RecursionError) *)
+Theorem PEG_leftrec_refuted :
+  forall c orc input f,
+    terminating all_nullable g_leftrec = false /\ run g_leftrec c orc false f input = Aborted 0.
+Proof. exact leftrec_never_terminates. Qed.
+Print Assumptions PEG_leftrec_refuted.
+
+(* outside the class, a repetition whose element is truthy without consuming `Model: ('y'* | 'b')* 'c';`:
+   rejected by the check; the real parser loops forever, the model is out of fuel (fuel 1500 shown;
+   by C19_run_fuel_mono then for every smaller fuel) *)
+Theorem PEG_loop_refuted :
+  terminating all_nullable g_loop = false /\
+  run g_loop (mkConfig true [9;10;13;32]%N) (fun _ _ => None) false 1500 [99]%N = Aborted 0.
+Proof. exact loop_aborts_1500. Qed.
+Print Assumptions PEG_loop_refuted.
